@@ -353,6 +353,9 @@ def sec_noise(ctx, rng, case):
     circuit = cirq.Circuit(moments)
     present = sorted(circuit.all_qubits())
     cs = [s for s in P.pools()["c"] if s.shape == (2,)]
+    if rng.random() < 0.25:
+        # coherent noise: a unitary single-qubit gate used as the noise channel (over-rotation models)
+        cs = [s for s in P.pools()["u"] if s.shape == (2,) and "custom" not in s.tags and "matrix" not in s.tags]
     spec = cs[int(rng.integers(len(cs)))]
     p = spec.sample(rng)
     try:
@@ -361,6 +364,8 @@ def sec_noise(ctx, rng, case):
         ctx.reject("constructor")
         return
     nk = spec.ref(p)
+    if not isinstance(nk, (list, tuple)):
+        nk = [np.asarray(nk, dtype=complex)]  # a unitary gate as a one-operator channel
     prepend = bool(rng.integers(2))
     form = int(rng.integers(3))
     if form == 0 and not prepend:
@@ -395,6 +400,15 @@ def sec_noise(ctx, rng, case):
             mech = KNOWN_NOISE_SPLIT
     ctx.check(L.allclose(got, want, 1e-7), "noise-model", mech,
               lambda: "DensityMatrixSimulator(noise=...) deviates from the documented insertion rule by %.3g" % L.maxdiff(got, want), **wit)
+    # the convenience entry point takes the same noise argument
+    # (called with the default qubit order, i.e. only when every qubit occurs in the circuit: its handling of an explicit
+    # qubit_order next to its internal defer_measurements step is outside this property)
+    if present == list(qubits):
+        got_mux = cirq.final_density_matrix(circuit, noise=noise, dtype=np.complex128)
+        ctx.check(L.allclose(got_mux, want, 1e-7), "noise-model", mech if mech == KNOWN_NOISE_SPLIT else "C09:final_density_matrix-noise",
+                  lambda: "cirq.final_density_matrix(noise=...) deviates from the documented insertion rule by %.3g" % L.maxdiff(got_mux, want), **wit)
+    else:
+        ctx.event("final_density_matrix:skipped-idle-qubits")
     noisy = circuit.with_noise(noise)
     got2 = cirq.DensityMatrixSimulator(dtype=np.complex128).simulate(noisy, qubit_order=qubits).final_density_matrix
     ctx.check(L.allclose(got2, want, 1e-7), "noise-model", "C09:with-noise", lambda: "circuit.with_noise deviates by %.3g" % L.maxdiff(got2, want), **wit)
